@@ -2,11 +2,14 @@
    Proofs/LieLog2.v, Proofs/LieLog3.v.
    [eps] is the dtype's machine epsilon (any eps >= 0).  Regimes of SO3_Log: 1 = |v|>eps, |w|>eps;
    2 = |v|>eps, |w|<=eps (angle pi); 3 = |v|<=eps (near identity).
-   Still tie-only: regime 3 (|v| <= eps) accuracy of Exp(Log X) and Log(Exp x) on the Taylor branches
-   (theta <= eps) - there the model is not an exact inverse, only within O(eps^4); float round-off. *)
+   Part 3 (Proofs/LieLog4.v) covers the regimes where the model is not an exact inverse (near identity, near pi)
+   with explicit error bounds in exact real arithmetic, so that the SO3 / SE3 / RxSO3 / Sim3 statements
+   C02_exp_log_*_every_element and C02_log_exp_so3_all_angles hold for EVERY valid element resp. every |x| < pi.
+   Still tie-only: Log(Exp x) for se3 / sim3 translations outside regime 1 (theta <= eps, or within O(eps) of pi),
+   Log(Inv X) = -Log X for SE3/Sim3 outside regime 1, and all float round-off. *)
 From Coq Require Import Reals List Lra.
 From PV Require Import Base.Num Model.LieGroup Model.LieExp Model.LieLog Proofs.LieGroup Proofs.LieExp Proofs.LieLog
-  Proofs.LieLog2 Proofs.LieLog3.
+  Proofs.LieLog2 Proofs.LieLog3 Proofs.LieLog4.
 Local Open Scope R_scope.
 #[local] Remove Hints NumQ NumZ : typeclass_instances.
 
@@ -218,3 +221,96 @@ Print Assumptions C02_log_identity. Print Assumptions C02_exp_log_identity.
 Print Assumptions C02_log_norm_le_pi. Print Assumptions C02_log_norm_le_pi_all_groups.
 Print Assumptions C02_exp_log_regime2. Print Assumptions C02_exp_log_at_pi. Print Assumptions C02_exp_log_near_pi.
 Print Assumptions C02_log_inv_SE3. Print Assumptions C02_log_inv_Sim3. Print Assumptions C02_log_of_negated_quaternion_all_groups.
+
+(* ======================= part 3 (Proofs/LieLog4.v): every element, with error bounds ======================= *)
+(* quaternion distance: qdist2 p q = |p - q|^2 (4 components); qscale 1 q = q, qscale (-1) q = qneg q;
+   pm w = 1 for w >= 0 and -1 for w < 0 (pypose.pm) *)
+
+(* ---- Exp (Log q) for EVERY unit quaternion (all three regimes, both hemispheres), eps <= 2^-10:
+   within sqrt 2 eps of q (w >= 0) resp. -q (w < 0), i.e. of the same rotation *)
+Theorem C02_exp_log_SO3_every_element : forall (eps : R) (q : quatR), 0 <= eps -> eps <= 1 / 1024 -> unitq q ->
+  qdist2 (so3_exp eps (SO3_log eps q)) (qscale (pm (qw q)) q) <= 2 * (eps * eps).
+Proof. exact exp_log_SO3_all. Qed.
+(* regime 3 (|v| <= eps): the distance is at most sqrt 5 |v|^5 *)
+Theorem C02_exp_log_regime3 : forall (eps : R) (q : quatR), 0 <= eps -> eps <= 1 / 1024 -> unitq q -> vnorm (qv q) <= eps ->
+  qdist2 (so3_exp eps (SO3_log eps q)) (qscale (pm (qw q)) q) <= 5 * vnorm (qv q) ^ 10.
+Proof. exact exp_log_regime3. Qed.
+(* SE3: additionally the translation is within eps^4/316 |t| of t (exactly t when the angle of Log q exceeds eps) *)
+Theorem C02_exp_log_SE3_every_element : forall (eps : R) (X : se3R), 0 <= eps -> eps <= 1 / 1024 -> unitq (snd X) ->
+  let Y := se3_exp eps (SE3_log eps X) in
+  let d := vsub (fst Y) (fst X) in
+  vdot d d <= eps ^ 8 / 100000 * vdot (fst X) (fst X) /\
+  qdist2 (snd Y) (qscale (pm (qw (snd X))) (snd X)) <= 2 * (eps * eps).
+Proof. exact exp_log_SE3_all. Qed.
+Theorem C02_exp_log_SE3_translation_exact : forall (eps : R) (X : se3R), 0 <= eps ->
+  eps < vnorm (SO3_log eps (snd X)) -> vnorm (SO3_log eps (snd X)) < 2 * PI ->
+  se3_exp eps (SE3_log eps X) = (fst X, so3_exp eps (SO3_log eps (snd X))).
+Proof. exact exp_log_SE3_transl. Qed.
+Theorem C02_exp_log_RxSO3_every_element : forall (eps : R) (X : rxso3R),
+  0 <= eps -> eps <= 1 / 1024 -> unitq (fst X) -> 0 < snd X ->
+  snd (rxso3_exp eps (RxSO3_log eps X)) = snd X /\
+  qdist2 (fst (rxso3_exp eps (RxSO3_log eps X))) (qscale (pm (qw (fst X))) (fst X)) <= 2 * (eps * eps).
+Proof. exact exp_log_RxSO3_all. Qed.
+(* Sim3: translation and scale restored exactly in every regime (det rxso3_Ws <> 0 on all four branches) *)
+Theorem C02_exp_log_Sim3_every_element : forall (eps : R) (X : sim3R),
+  0 <= eps -> eps <= 1 / 1024 -> unitq (fst (snd X)) -> 0 < snd (snd X) ->
+  fst (sim3_exp eps (Sim3_log eps X)) = fst X /\ snd (snd (sim3_exp eps (Sim3_log eps X))) = snd (snd X) /\
+  qdist2 (fst (snd (sim3_exp eps (Sim3_log eps X)))) (qscale (pm (qw (fst (snd X)))) (fst (snd X))) <= 2 * (eps * eps).
+Proof. exact exp_log_Sim3_all. Qed.
+Theorem C02_Ws_det_nonzero_all_branches : forall (eps : R) (phi : vec3R) (sg : R), 0 <= eps -> vnorm phi < 2 * PI ->
+  mdet3 (rxso3_Ws eps (phi, sg)) <> 0.
+Proof. exact rxso3_Ws_det_all. Qed.
+
+(* ---- Log (Exp x) for EVERY x with |x| < pi, eps <= 2^-10: x scaled by 1 + r, |r| <= 2 eps (r = 0 in regime 1) *)
+Theorem C02_log_exp_so3_all_angles : forall (eps : R) (x : vec3R), 0 <= eps -> eps <= 1 / 1024 -> vnorm x < PI ->
+  exists r, SO3_log eps (so3_exp eps x) = vscale (1 + r) x /\ Rabs r <= 2 * eps.
+Proof. exact log_exp_so3_all. Qed.
+Theorem C02_log_exp_rxso3_all_angles : forall (eps : R) (x : vec3R * R), 0 <= eps -> eps <= 1 / 1024 -> vnorm (fst x) < PI ->
+  exists r, RxSO3_log eps (rxso3_exp eps x) = (vscale (1 + r) (fst x), snd x) /\ Rabs r <= 2 * eps.
+Proof. exact log_exp_rxso3_all. Qed.
+(* Taylor branch of Exp (theta <= eps): the factor is an explicit rational function, |r| <= theta^4 / 64 *)
+Theorem C02_log_exp_so3_taylor : forall (eps : R) (x : vec3R), 0 <= eps -> eps <= 1 / 1024 -> vnorm x <= eps ->
+  SO3_log eps (so3_exp eps x) = vscale (1 + rlog_taylor (vnorm x)) x /\ Rabs (rlog_taylor (vnorm x)) <= vnorm x ^ 4 / 64.
+Proof.
+  intros eps x He He2 Hx. split; [now apply log_exp_so3_taylor|].
+  apply rlog_taylor_bound. pose proof (vnorm_nonneg x). lra.
+Qed.
+(* within 4 eps of pi (cos(theta/2) <= eps) Log reports the angle pi exactly: Log (Exp x) = (pi/theta) x *)
+Theorem C02_log_exp_so3_near_pi : forall (eps : R) (x : vec3R), 0 <= eps -> eps <= 1 / 1024 -> eps < vnorm x -> vnorm x < PI ->
+  cos (vnorm x / 2) <= eps ->
+  SO3_log eps (so3_exp eps x) = vscale (PI / vnorm x) x /\ 0 < PI - vnorm x <= 4 * eps.
+Proof. exact log_exp_so3_near_pi. Qed.
+
+(* ---- q and -q: same Log also in regime 3 and in regime 2 with w <> 0; at w = 0 exactly (angle pi) the two
+   logarithms are opposite (both are logarithms of the same half-turn) *)
+Theorem C02_log_of_negated_quaternion_regime3 : forall (eps : R) (q : quatR), vnorm (qv q) <= eps -> qw q <> 0 ->
+  SO3_log eps (qneg q) = SO3_log eps q.
+Proof. exact SO3_log_neg_regime3. Qed.
+Theorem C02_log_of_negated_quaternion_regime2 : forall (eps : R) (q : quatR),
+  eps < vnorm (qv q) -> Rabs (qw q) <= eps -> qw q <> 0 -> SO3_log eps (qneg q) = SO3_log eps q.
+Proof. exact SO3_log_neg_regime2. Qed.
+Theorem C02_log_of_negated_quaternion_at_pi : forall (eps : R) (q : quatR), 0 <= eps -> eps < vnorm (qv q) -> qw q = 0 ->
+  SO3_log eps (qneg q) = vneg (SO3_log eps q).
+Proof. exact SO3_log_neg_at_pi. Qed.
+
+(* ---- "principal": beyond pi Log (Exp x) is not x but the rotation vector of the same rotation with angle
+   2 pi - theta < pi about the opposite axis *)
+Theorem C02_log_exp_so3_beyond_pi : forall (eps : R) (x : vec3R),
+  0 <= eps -> eps < vnorm x -> PI < vnorm x -> vnorm x < 2 * PI ->
+  eps < sin (vnorm x / 2) -> eps < - cos (vnorm x / 2) ->
+  SO3_log eps (so3_exp eps x) = vscale ((vnorm x - 2 * PI) / vnorm x) x /\
+  vnorm (SO3_log eps (so3_exp eps x)) = 2 * PI - vnorm x.
+Proof. exact log_exp_so3_beyond_pi. Qed.
+Example C02_hyps_beyond_pi_satisfiable : let x : vec3R := (4, 0, 0) in
+  0 <= eps64 /\ eps64 < vnorm x /\ PI < vnorm x /\ vnorm x < 2 * PI /\ eps64 < sin (vnorm x / 2) /\ eps64 < - cos (vnorm x / 2).
+Proof. exact hyps_beyond_pi_ok. Qed.
+
+Print Assumptions C02_exp_log_SO3_every_element. Print Assumptions C02_exp_log_regime3.
+Print Assumptions C02_exp_log_SE3_every_element. Print Assumptions C02_exp_log_SE3_translation_exact.
+Print Assumptions C02_exp_log_RxSO3_every_element. Print Assumptions C02_exp_log_Sim3_every_element.
+Print Assumptions C02_Ws_det_nonzero_all_branches.
+Print Assumptions C02_log_exp_so3_all_angles. Print Assumptions C02_log_exp_rxso3_all_angles.
+Print Assumptions C02_log_exp_so3_taylor. Print Assumptions C02_log_exp_so3_near_pi.
+Print Assumptions C02_log_of_negated_quaternion_regime3. Print Assumptions C02_log_of_negated_quaternion_regime2.
+Print Assumptions C02_log_of_negated_quaternion_at_pi.
+Print Assumptions C02_log_exp_so3_beyond_pi.
